@@ -240,7 +240,10 @@ class ArgumentsGenerator:
 
         expr: ast.expr
         if isinstance(node, ListTypeNode):
-            item = generate_name(f"{ITEM_VARIABLE_PREFIX}{depth}")
+            item_name = f"{ITEM_VARIABLE_PREFIX}{depth}"
+            while item_name == serialize_name:
+                item_name += "_"
+            item = generate_name(item_name)
             expr = ast.ListComp(
                 elt=self._generate_serialize_expr(
                     node.type, item, serialize_name, True, depth + 1
